@@ -250,6 +250,10 @@ func exhaustiveC14(thorough bool, emit func(C14Case) bool) {
 	}
 }
 
-func TestC14(t *testing.T) {
-	Run(t, Prop[C14Case]{ID: "C14", Gen: genC14, Exhaustive: exhaustiveC14, Check: checkC14})
+func propC14() Prop[C14Case] {
+	return Prop[C14Case]{ID: "C14", Gen: genC14, Exhaustive: exhaustiveC14, Check: checkC14}
 }
+
+func TestC14(t *testing.T) { Run(t, propC14()) }
+
+func FuzzGenC14(f *testing.F) { RunFuzz(f, propC14()) }
